@@ -33,10 +33,20 @@ var (
 	stackBuf = make([]byte, 1<<20)
 )
 
+// lockStack takes stackMu without ever parking on it: a goroutine of the case
+// (the server's request handler inside settleExcept) that waited in
+// sync.Mutex.Lock for the snapshot of the scenario goroutine would look parked
+// in exactly that snapshot.
+func lockStack() {
+	for !stackMu.TryLock() {
+		runtime.Gosched()
+	}
+}
+
 // snapshot returns (id, state) of every goroutine. runtime.Stack(all) stops
 // the world, so the snapshot is one consistent instant.
 func snapshot() []gsnap {
-	stackMu.Lock()
+	lockStack()
 	defer stackMu.Unlock()
 	var b []byte
 	for {
@@ -85,7 +95,7 @@ func snapshot() []gsnap {
 // dumpAll is mon.GoroutineDump with a reused buffer (a fresh 1 MiB allocation
 // per dump is very expensive under the race detector).
 func dumpAll() string {
-	stackMu.Lock()
+	lockStack()
 	defer stackMu.Unlock()
 	for {
 		n := runtime.Stack(stackBuf, true)
@@ -220,25 +230,26 @@ const (
 )
 
 type openRec struct {
-	id        int
-	chanType  string
-	network   string // "tcp" | "unix" as implied by the channel type
-	host      string
-	port      uint32
-	path      string
-	payload   []byte
-	malformed string // "" or what is wrong with the payload
-	intent    string // generator's intent (evidence only; the oracle recomputes the class)
-	quiet     bool   // sent while no other open of the connection was unresolved and the system was settled
-	sentSeq   int64
-	outcome   int
-	reason    ssh.RejectionReason
-	rejectMsg string
-	connErr   string
-	resSeq    int64
-	delivered *lst
-	ch        ssh.Channel
-	done      chan struct{}
+	id           int
+	chanType     string
+	network      string // "tcp" | "unix" as implied by the channel type
+	host         string
+	port         uint32
+	path         string
+	payload      []byte
+	malformed    string // "" or what is wrong with the payload
+	intent       string // generator's intent (evidence only; the oracle recomputes the class)
+	duringCancel bool   // sent by the server after it received the cancel request of a Close and before it replied
+	quiet        bool   // sent while no other open of the connection was unresolved and the system was settled
+	sentSeq      int64
+	outcome      int
+	reason       ssh.RejectionReason
+	rejectMsg    string
+	connErr      string
+	resSeq       int64
+	delivered    *lst
+	ch           ssh.Channel
+	done         chan struct{}
 }
 
 func (o *openRec) addr() string {
@@ -294,8 +305,8 @@ type srvReq struct {
 }
 
 type env struct {
-	m    *mon.M
-	pre  map[int]bool // goroutines that predate the case (goroutine ids are not monotonic across Ps)
+	m   *mon.M
+	pre map[int]bool // goroutines that predate the case (goroutine ids are not monotonic across Ps)
 
 	cEnd, sEnd *duplexEnd
 	client     *ssh.Client
@@ -303,22 +314,23 @@ type env struct {
 
 	seq atomic.Int64
 
-	mu        sync.Mutex
-	lsts      []*lst
-	opens     []*openRec
-	trace     []string
-	curListen *lplan // policy for the forward request(s) of the Listen in progress
-	lastFwd   srvReq // last forward request the server granted
-	fwdReqs   int
-	cancelOK  map[string]bool // addr key -> reply for cancel requests (default true)
-	reqsSeen  int
-	reqsDone  int
-	conns     []net.Conn
-	dropped   bool
-	dead      bool // a hang was detected: the rest of the scenario is skipped
-	settledOK bool // nothing was started since the last successful settle()
-	incon     bool
-	tearing   bool // teardown: Accept results are no longer judged
+	mu           sync.Mutex
+	lsts         []*lst
+	opens        []*openRec
+	trace        []string
+	curListen    *lplan // policy for the forward request(s) of the Listen in progress
+	lastFwd      srvReq // last forward request the server granted
+	fwdReqs      int
+	cancelOK     map[string]bool // addr key -> reply for cancel requests (default true)
+	cancelInject map[string]int  // addr key -> forwards the server opens between receiving the cancel request and replying
+	reqsSeen     int
+	reqsDone     int
+	conns        []net.Conn
+	dropped      bool
+	dead         bool // a hang was detected: the rest of the scenario is skipped
+	settledOK    bool // nothing was started since the last successful settle()
+	incon        bool
+	tearing      bool // teardown: Accept results are no longer judged
 }
 
 func (e *env) tick() int64 { return e.seq.Add(1) }
@@ -338,7 +350,7 @@ func (e *env) traceCopy() []string {
 }
 
 func newEnv(m *mon.M, serverVersion string) (*env, error) {
-	e := &env{m: m, cancelOK: map[string]bool{}}
+	e := &env{m: m, cancelOK: map[string]bool{}, cancelInject: map[string]int{}}
 	e.pre = map[int]bool{}
 	for _, g := range snapshot() {
 		e.pre[g.id] = true
@@ -392,7 +404,18 @@ func srvRequests(e *env, reqs <-chan *ssh.Request) {
 		e.mu.Lock()
 		e.reqsSeen++
 		e.mu.Unlock()
-		ok, payload, burst := e.decide(r)
+		ok, payload, burst, before := e.decide(r)
+		if before {
+			// forwards for exactly the address being cancelled, sent inside the
+			// cancel round trip: written now, and the reply is held back until the
+			// client has done with them whatever it will do unprompted (every other
+			// goroutine of the case is parked).
+			for _, o := range burst {
+				e.sendOpen(o)
+			}
+			burst = nil
+			e.settleExcept(goid())
+		}
 		if r.WantReply {
 			r.Reply(ok, payload)
 		}
@@ -405,7 +428,12 @@ func srvRequests(e *env, reqs <-chan *ssh.Request) {
 	}
 }
 
-func (e *env) decide(r *ssh.Request) (ok bool, payload []byte, burst []*openRec) {
+func (e *env) decide(r *ssh.Request) (bool, []byte, []*openRec, bool) {
+	ok, payload, burst := e.decide0(r)
+	return ok, payload, burst, len(burst) > 0 && strings.HasPrefix(r.Type, "cancel-")
+}
+
+func (e *env) decide0(r *ssh.Request) (ok bool, payload []byte, burst []*openRec) {
 	e.mu.Lock()
 	defer e.mu.Unlock()
 	switch r.Type {
@@ -460,19 +488,31 @@ func (e *env) decide(r *ssh.Request) (ok bool, payload []byte, burst []*openRec)
 			return false, nil, nil
 		}
 		k := "tcp:" + net.JoinHostPort(host, strconv.FormatUint(uint64(port), 10))
-		if v, have := e.cancelOK[k]; have {
-			return v, nil, nil
+		for n := e.cancelInject[k]; n > 0; n-- {
+			o := e.newOpenLocked("tcp", host, port, "", "", "during-cancel")
+			o.duringCancel = true
+			burst = append(burst, o)
 		}
-		return true, nil, nil
+		delete(e.cancelInject, k)
+		if v, have := e.cancelOK[k]; have {
+			return v, nil, burst
+		}
+		return true, nil, burst
 	case "cancel-streamlocal-forward@openssh.com":
 		path, pok := parseUnixForwardReq(r.Payload)
 		if !pok {
 			return false, nil, nil
 		}
-		if v, have := e.cancelOK["unix:"+path]; have {
-			return v, nil, nil
+		for n := e.cancelInject["unix:"+path]; n > 0; n-- {
+			o := e.newOpenLocked("unix", "", 0, path, "", "during-cancel")
+			o.duringCancel = true
+			burst = append(burst, o)
 		}
-		return true, nil, nil
+		delete(e.cancelInject, "unix:"+path)
+		if v, have := e.cancelOK["unix:"+path]; have {
+			return v, nil, burst
+		}
+		return true, nil, burst
 	}
 	return false, nil, nil
 }
@@ -667,7 +707,14 @@ func (e *env) judgeDeliveryLocked(o *openRec, l *lst) {
 		m.Count("delivered_malformed:"+o.malformed, 1)
 	}
 	group := e.exactListenersLocked(o)
-	if l.closeRetSeq != 0 && o.sentSeq > l.closeRetSeq {
+	if o.duringCancel {
+		// sent after the peer had received this listener's cancel request, i.e. after Close was called
+		if l.closeRetSeq != 0 && len(group) == 1 {
+			m.Violation("accept-after-close-delivers-forward-sent-during-close:"+l.network, e.witnessLocked(o, l))
+		} else {
+			m.Count("cancel_window_forward_delivered_before_close_returned", 1)
+		}
+	} else if l.closeRetSeq != 0 && o.sentSeq > l.closeRetSeq {
 		if len(group) >= 2 {
 			m.Count("equal_addr_delivered_to_closed_sibling", 1)
 		} else {
@@ -697,6 +744,9 @@ func (e *env) judgeRejectLocked(o *openRec) {
 		m.Count("burst_at_registration_resolved", 1)
 	}
 	m.Distinct("open " + o.intent + " -> rejected")
+	if o.duringCancel {
+		m.Count("cancel_window_forward_rejected", 1)
+	}
 	group := e.exactListenersLocked(o)
 	if len(group) == 0 {
 		m.Count("rejected_unregistered", 1)
@@ -743,6 +793,40 @@ func pause(it int) {
 }
 
 const settleLimit = 120 * time.Second
+
+// goid returns the calling goroutine's id.
+func goid() int {
+	b := make([]byte, 64)
+	b = b[:runtime.Stack(b, false)]
+	if f := strings.Fields(string(b)); len(f) > 1 {
+		id, _ := strconv.Atoi(f[1])
+		return id
+	}
+	return -1
+}
+
+// settleExcept: settle() for a goroutine of the case itself (the server's
+// request handler): every other goroutine of the case is parked.
+func (e *env) settleExcept(self int) bool {
+	t0 := time.Now()
+	for it := 0; ; it++ {
+		all := true
+		for _, g := range snapshot() {
+			if !e.pre[g.id] && g.id != self && !parked(g.state) {
+				all = false
+				break
+			}
+		}
+		if all {
+			return true
+		}
+		if time.Since(t0) > settleLimit {
+			e.inconclusive("case goroutines did not settle inside the cancel round trip")
+			return false
+		}
+		pause(it)
+	}
+}
 
 // settle waits until every goroutine of the case is parked. One stop-the-world
 // snapshot with all parties parked on channels/mutexes/conds is a stable state
@@ -908,6 +992,10 @@ func trimDump(d string) string {
 // frozen and derives the key from the dump. Returns true if a violation was
 // recorded.
 func (e *env) frozenVerdict(opFrame, opName, suffix string, extra map[string]any) bool {
+	return e.frozenVerdictRekey(opFrame, opName, suffix, extra, nil)
+}
+
+func (e *env) frozenVerdictRekey(opFrame, opName, suffix string, extra map[string]any, rekey func(string) string) bool {
 	// the harness must not owe the system anything
 	e.mu.Lock()
 	owed := e.reqsSeen != e.reqsDone
@@ -943,6 +1031,10 @@ func (e *env) frozenVerdict(opFrame, opName, suffix string, extra map[string]any
 	w["goroutine_dump"] = trimDump(dump)
 	for k, v := range extra {
 		w[k] = v
+	}
+	if rekey != nil {
+		w["wait_for_pattern"] = key
+		key = rekey(key)
 	}
 	e.m.Violation(key, w)
 	if strings.HasPrefix(key, "deadlock:") {
@@ -1388,11 +1480,21 @@ func (e *env) checkStarved(where string) {
 }
 
 // doClose calls Close on l and judges "Close returns".
-func (e *env) doClose(l *lst) {
+func (e *env) doClose(l *lst) { e.doCloseInject(l, 0) }
+
+// doCloseInject: Close, with inject forwards for exactly l's address sent by
+// the server between receiving the cancel request and replying to it.
+func (e *env) doCloseInject(l *lst, inject int) {
 	if e.isDead() || l == nil {
 		return
 	}
 	e.mu.Lock()
+	if l.closes > 0 || e.dropped {
+		inject = 0
+	}
+	if inject > 0 {
+		e.cancelInject[l.addr()] = inject
+	}
 	k := e.unacceptedLocked(l)
 	appK := 0 // forwards sent for this listener that the application never got from Accept
 	for _, o := range e.opens {
@@ -1448,7 +1550,20 @@ func (e *env) doClose(l *lst) {
 	if dropped {
 		m.Count("close_after_conn_end", 1)
 	}
-	m.Distinct(fmt.Sprintf("close kind=%s k=%s settled=%v acceptBlocked=%v second=%v dropped=%v otherBacklog=%v", l.plan.kindName(), kClass(k), settled, blockedAccept, second, dropped, backlogOther))
+	m.Distinct(fmt.Sprintf("close kind=%s k=%s settled=%v acceptBlocked=%v second=%v dropped=%v otherBacklog=%v duringCancel=%d", l.plan.kindName(), kClass(k), settled, blockedAccept, second, dropped, backlogOther, inject))
+	if inject > 0 {
+		m.Count("cancel_window_close_calls:"+l.plan.kindName(), 1)
+		m.Count(fmt.Sprintf("cancel_window_close_calls_pending_before_%d", k), 1)
+	}
+	// A hang of this Close with fewer than two un-accepted forwards before the
+	// call is not the known forward-backlog deadlock even if the parked pair
+	// looks the same: the forwards that block arrived during the cancel round trip.
+	var rekey func(string) string
+	if inject > 0 && k < 2 && !backlogOther {
+		rekey = func(pattern string) string {
+			return "hang:Close-with-forward-during-cancel:" + l.network + ":" + strings.TrimPrefix(pattern, "deadlock:")
+		}
+	}
 	out := make(chan error, 1)
 	go opClose(l.l, out)
 	var cerr error
@@ -1471,7 +1586,7 @@ func (e *env) doClose(l *lst) {
 			return
 		}
 		// Close is parked and so is everybody else.
-		if e.frozenVerdict("sshfwd.opClose", "Close", "", map[string]any{"closing": l.addr(), "unaccepted_forwards_for_listener": k}) {
+		if e.frozenVerdictRekey("sshfwd.opClose", "Close", "", map[string]any{"closing": l.addr(), "unaccepted_forwards_for_listener_before_close": k, "forwards_sent_during_cancel_round_trip": inject}, rekey) {
 			return
 		}
 	}
@@ -1484,6 +1599,9 @@ func (e *env) doClose(l *lst) {
 	cancelFail := chas && !cv
 	e.mu.Unlock()
 	m.Count("close_returned", 1)
+	if inject > 0 {
+		m.Count("cancel_window_close_returned:"+l.plan.kindName(), 1)
+	}
 	switch {
 	case cerr == nil:
 		m.Count("close_returned_nil", 1)
@@ -1634,6 +1752,9 @@ func (e *env) pendingCheck() {
 		if e.groupTaintedLocked(group) {
 			excused = true
 		}
+		if o.duringCancel && len(group) == 1 && !e.dropped {
+			excused = false // sent inside the cancel round trip of a Close that has returned: rejected, not parked in the dead listener
+		}
 		if excused {
 			e.m.Count("forward_unanswered_after_listener_close", 1)
 			continue
@@ -1641,6 +1762,9 @@ func (e *env) pendingCheck() {
 		c := "registered-address"
 		if len(group) == 0 {
 			c = "unregistered-address"
+		}
+		if o.duringCancel {
+			c = "sent-during-cancel-of-close"
 		}
 		if o.malformed != "" {
 			c = "malformed-payload"
